@@ -345,6 +345,80 @@ def run_outputs(unit):
             except core.Realize as e:
                 log['inconclusive'].append({'obligation': f'{clsn}/{oname}/{um.value}', 'why': 'pint realises the magnitude'})
             yield log.result()
+    yield from run_output_series(unit)
+
+
+def run_output_series(unit):
+    """series-valued outputs (profiles): a directive converts EVERY element exactly - also to units with an offset (degF, kelvin)."""
+    modn, clsn = unit['module'], unit['cls']
+    tier = unit['tier']
+    obj0, model0, mod = c07._make(modn, clsn)
+    maxu = 3 if tier == 'quick' else 100
+    for oname, o0 in list(obj0.OutputParameterDict.items()):
+        if not isinstance(o0.value, (list, tuple, np.ndarray)):
+            continue
+        e = type(o0.PreferredUnits)
+        if not hasattr(e, '__members__'):
+            continue
+        for um in [m for m in e if m != o0.CurrentUnits][:maxu]:
+            try:
+                pint_convert(1.0, o0.CurrentUnits.value, um.value)
+            except Exception:
+                continue
+            for container in ('ndarray', 'list'):
+                cfg = {'harness': 'output-units', 'class': clsn, 'output': oname, 'unit': um.value, 'series': container}
+                log = harness.UnitLog(cfg)
+                zv = {'x0': z3.Real('x0'), 'x1': z3.Real('x1')}
+
+                def concrete(inp, oname=oname, um=um, container=container):
+                    obj, model, _ = c07._make(modn, clsn)
+                    op = obj.OutputParameterDict[oname]
+                    xs = [float(inp.get('x0', 1.5)), float(inp.get('x1', 80.25))]
+                    op.value = np.array(xs) if container == 'ndarray' else list(xs)
+                    cu0 = op.CurrentUnits.value
+                    with contextlib.redirect_stdout(io.StringIO()):
+                        P.ConvertOutputUnits(op, um, model)
+                    want = [float(pint_convert(x, cu0, um.value)) for x in xs]
+                    got = [float(x) for x in np.ravel(op.value)]
+                    bad = len(got) != 2 or any(abs(g - w) > 1e-9 * (abs(w) + 1) for g, w in zip(got, want)) or op.CurrentUnits != um
+                    return bad, {'stored': xs, 'from': cu0, 'to': um.value, 'displayed': got, 'expected': want, 'label': str(op.CurrentUnits)}
+
+                def fn(oname=oname, um=um, container=container):
+                    obj, model, _ = c07._make(modn, clsn)
+                    op = obj.OutputParameterDict[oname]
+                    xs = [sym('x0'), sym('x1')]
+                    op.value = core.as_symarray(xs) if container == 'ndarray' else list(xs)
+                    cu0 = op.CurrentUnits.value
+                    with contextlib.redirect_stdout(io.StringIO()), shim.shadow(*([(P, 'np', shim.NP)] if hasattr(P, 'np') else [])):
+                        P.ConvertOutputUnits(op, um, model)
+                    return op, xs, cu0
+                try:
+                    for pr in core.explore(fn, max_paths=20):
+                        log.path(pr)
+                        if pr.error is not None:
+                            raise pr.error
+                        if pr.aborted:
+                            continue
+                        op, xs, cu0 = pr.value
+                        harness.reachable(log, pr.ctx, 1000)
+                        got = [core.lift(g) for g in np.ravel(op.value)]
+                        ok = len(got) == 2 and all(g is not None for g in got)
+                        prop = z3.And([approx(g, core.lift(pint_convert(x, cu0, um.value))) for g, x in zip(got, xs)]) if ok else False
+                        harness.discharge(log, pr.ctx, f'output-units directive on a series: every element is converted exactly ({cu0} -> {um.value})', prop, zv, concrete,
+                                          sample=(container == 'ndarray'))
+                        harness.discharge(log, pr.ctx, 'output-units directive on a series: the label becomes the requested unit', op.CurrentUnits == um, zv, concrete)
+                except (core.Realize, TypeError, ValueError) as e:
+                    # pint could not carry the proxies through this container: decide the obligation on concrete points instead of giving up
+                    for k, inp in enumerate(({'x0': 1.5, 'x1': 80.25}, {'x0': 0.0, 'x1': -40.0}, {'x0': 212.0, 'x1': 1e-3})):
+                        bad, detail = concrete(inp)
+                        if bad:
+                            log['obligations'] += 1
+                            log['cex'].append({'obligation': f'output-units directive on a series: every element is converted exactly ({o0.CurrentUnits.value} -> {um.value})', 'finding': None,
+                                               'config': dict(cfg), 'reproduced': True, 'inputs': inp, 'detail': detail, 'how': 'concrete points (pint realises a series of proxies)', 'attempts': []})
+                            break
+                    else:
+                        log['inconclusive'].append({'obligation': f'{clsn}/{oname}/{um.value}/{container}', 'why': f'pint realises the series ({type(e).__name__}); 3 concrete points held'})
+                yield log.result()
 
 
 # ---- the directive path: 'Units:<output>, <unit>' lines -> Outputs.read_parameters -> the conversion pass before printing ----------------------
